@@ -13,6 +13,14 @@ folders / rewritten, import lines changed, a wildcard's folder appearing and dis
 process on the same paths (c17_run.py {"seq": ...}; untouched files keep inode and mtime).  Every state is a case like any other:
 in-process result == flattened single file of the project AS IT IS NOW, == model prediction, and (control) == the result of a fresh
 process when the OS lists the folders in the same order.  A failing state is replayed with the shortest history that reproduces it.
+Strengthening round 3: FILE-SENSITIVE load statements before / between / after imports (gen_filesens): a load statement is compiled
+later, in a batch, with the shared `load_tokenizer`; what it compiles to may depend on the file that tokenizer stands on -
+  (a) its line number and the text of that line (`$q += n;` under Debug.watch($q) prints `file:line | source line`; late lines, 1-line
+      neighbours), (b) the folder of its file (JMC.pythonFile("gen.py"), a gen.py of its own in every folder), (c) the file and line
+      of its diagnostic (failing statements: immediate and deferred-to-build diagnostics).
+The flattened file is compared MODULO THE FILE MAPPING: a statement keeps its meaning (pythonFile paths are rebased when pasted), file
+names / lines printed in the output or in the diagnostic must be those of the statement's own file and line on either side.  The
+model (EvBatch tok l) must predict the file every watched statement was compiled as text of, and the file of the diagnostic.
 """
 from __future__ import annotations
 
@@ -42,7 +50,36 @@ DEF_KINDS = ["func", "class", "plain", "new", "nested"]
 ALLOC_KINDS = {"if", "func", "class"}
 
 
-def item_text(kind: str, n: int) -> str:
+# strengthening round 3: load statements whose compilation depends on the FILE the load tokenizer stands on
+WATCHED_KINDS = {"wvar", "wvarp"}                        # `$q += n;` under Debug.watch($q): prints file:line and the source line
+BAD_KINDS = ["badvar", "badvarp", "badarg", "badcall"]    # do not compile; badcall is diagnosed when the pack is built (deferred)
+HIDDEN_KINDS = {"watch", "pyf"} | set(BAD_KINDS)         # no id of their own in __load__
+FS_LOAD_KINDS = ["wvar", "wvarp", "pyf"]
+PAD = "\n" * 5                                           # the statement sits on a late line of its file
+
+
+def item_text(kind: str, n: int, rel: str = "") -> str:
+    """text of item n; rel = folder of the file the item was WRITTEN in, relative to the folder of the file the text is put in
+    ("" = the same: the project itself; the flattened file rebases relative paths)"""
+    if kind == "watch":
+        return "Debug.watch($q);"
+    if kind == "wvar":
+        return f"$q += {n};"
+    if kind == "wvarp":
+        return PAD + f"$q += {n};"
+    if kind == "wfunc":
+        return f"function d{n}() {{ $q += {n}; }}"
+    if kind == "pyf":
+        pre = "" if rel in ("", ".") else rel + "/"
+        return f'JMC.pythonFile("{pre}{["gen.py", "gen", "./gen.py"][n % 3] if not pre else ["gen.py", "gen"][n % 2]}");'
+    if kind == "badvar":
+        return f"$b{n} = ;"
+    if kind == "badvarp":
+        return PAD + f"$b{n} = ;"
+    if kind == "badarg":
+        return f"Timer.add(t{n});"
+    if kind == "badcall":
+        return f"Player.nothing{n}();"
     if kind == "if":
         return f'if ($x == {n}) {{ say "L{n}"; say "l{n}"; }}'
     if kind == "ifelse":      # allocates in if_else too, but several numbers: not used for the order observation
@@ -124,7 +161,7 @@ def spec_flatten(files: dict, listing: dict, main_id: tuple) -> list:
             raise SpecError("notfound", fid)
         for it in files[fid]:
             if it[0] in ("load", "def"):
-                out.append(it)
+                out.append(tuple(it[:3]) + (fid,))          # + the file it was written in
             elif it[0] == "import":
                 rec(spec_target(fid, it[1]))
             else:
@@ -158,6 +195,31 @@ class Project:
                 lines.append(f'import "{it[1]}";')
         return "\n".join(lines) + "\n"
 
+    def kinds(self) -> set:
+        return {it[2] for its in self.files.values() for it in its if it[0] in ("load", "def")}
+
+    def aux_files(self) -> dict:
+        """round 3: a gen.py of its own in EVERY folder (same name, different output) when the project uses JMC.pythonFile"""
+        if "pyf" not in self.kinds():
+            return {}
+        return {f"{d}/gen.py": f'emit(\'say "PY {d}"\')\n' for d in self.all_dirs() + ["w"]}
+
+    def layout(self) -> dict:
+        """item id -> (file, line of its statement)"""
+        out = {}
+        for f, its in self.files.items():
+            line = 1
+            for it in its:
+                if it[0] in ("load", "def"):
+                    t = item_text(it[2], it[1])
+                    out[it[1]] = (tup(f), line + len(t) - len(t.lstrip("\n")))
+                    line += t.count("\n")
+                line += 1
+        return out
+
+    def ids_of(self, kinds) -> list:
+        return sorted(it[1] for its in self.files.values() for it in its if it[0] in ("load", "def") and it[2] in kinds)
+
     def all_dirs(self) -> list[str]:
         ds = set(self.dirs)
         for f in self.files:
@@ -168,7 +230,7 @@ class Project:
         return sorted(ds)
 
     def job(self) -> dict:
-        return dict(files={f: self.file_text(its) for f, its in self.files.items()}, dirs=self.dirs, cwd=self.cwd,
+        return dict(files=dict({f: self.file_text(its) for f, its in self.files.items()}, **self.aux_files()), dirs=self.dirs, cwd=self.cwd,
                     target=self.target, globs=self.all_dirs())
 
     def main_id(self) -> tuple:
@@ -184,9 +246,27 @@ class Project:
         return Project({k: [tuple(i) for i in v] for k, v in o["files"].items()}, o["dirs"], o["cwd"], o["target"], o.get("tag", ""))
 
 
-def flat_job(flat_items) -> dict:
-    text = "\n".join(item_text(it[2], it[1]) for it in flat_items) + "\n"
-    return dict(files={f"{P}/main.jmc": text}, dirs=[], cwd=P, target="{ROOT}/" + P + "/main.jmc", globs=[])
+def flat_rel(it) -> str:
+    """folder of the file item `it` of a flattened list was written in, relative to the folder of the flattened file"""
+    return posixpath.relpath("/".join(it[3][1:-1]), P) if len(it) > 3 and it[3][:1] == (ROOTC,) else ""
+
+
+def flat_texts(flat_items) -> list[str]:
+    return [item_text(it[2], it[1], flat_rel(it)) for it in flat_items]
+
+
+def flat_job(flat_items, aux=None) -> dict:
+    text = "\n".join(flat_texts(flat_items)) + "\n"
+    return dict(files=dict({f"{P}/main.jmc": text}, **(aux or {})), dirs=[], cwd=P, target="{ROOT}/" + P + "/main.jmc", globs=[])
+
+
+def flat_layout(flat_items) -> dict:
+    out, line = {}, 1
+    for it in flat_items:
+        t = item_text(it[2], it[1], flat_rel(it))
+        out[it[1]] = (tup(f"{P}/main.jmc"), line + len(t) - len(t.lstrip("\n")))
+        line += t.count("\n") + 1
+    return out
 
 
 MAIN_SPELLINGS = [            # (cwd, target)
@@ -360,6 +440,20 @@ def gen_adversarial(rng):
         proj({m: [("import", "lib/f"), L(1000), ("wild", "./x/*"), ("wild", "x/*")],
               f"{P}/lib/f.jmc": [("wild", "./x/*"), D(1002), ("wild", "../x/*")],
               f"{P}/x/p.jmc": [L(1004), D(1005)], f"{P}/lib/x/q.jmc": [D(1006, "class"), L(1007, "say")]}, cwd, target, tag="same-string-two-folders")
+    # strengthening round 3: RE-ENTRANT wildcards - a file below the folder of a wildcard import names that folder again (directly, through
+    # a sub-folder, through another folder): the files not yet read are pasted THERE, inside that file, whatever the listing order
+    # (a "this folder is being imported already" shortcut moves them behind the rest of the file)
+    for cwd, target in MAIN_SPELLINGS[:3]:
+        proj({m: [L(1000), ("wild", "lib/*"), D(1001)],
+              f"{P}/lib/a.jmc": [L(1002), ("wild", "./*"), L(1003, "say")], f"{P}/lib/b.jmc": [L(1004), ("wild", "../lib/*"), D(1005)],
+              f"{P}/lib/c.jmc": [D(1006), ("wild", "{ROOT}/" + P + "/lib/*"), L(1007)]}, cwd, target, tag="reentrant-wildcard")
+        proj({m: [("wild", "lib/*"), L(1000)],
+              f"{P}/lib/a.jmc": [L(1001), ("wild", "inner/../*"), L(1002)], f"{P}/lib/inner/x.jmc": [L(1003), ("wild", "../*"), L(1004, "say")],
+              f"{P}/lib/inner/y.jmc": [D(1005), ("wild", "./*"), L(1006)]}, cwd, target, tag="reentrant-wildcard")
+        proj({m: [L(1000), ("wild", "x/*"), ("wild", "lib/*"), L(1001, "say")],
+              f"{P}/x/p.jmc": [L(1002), ("wild", "../lib/*"), L(1003)], f"{P}/x/q.jmc": [L(1004), ("wild", "../lib/*"), L(1005)],
+              f"{P}/lib/f.jmc": [L(1006), ("wild", "../x/*"), L(1007)], f"{P}/lib/g.jmc": [D(1008), ("wild", "../x/*"), L(1009)]},
+             cwd, target, tag="reentrant-wildcard")
     # suffix completion
     proj({m: [("import", "a.b"), L(1000), ("import", "a.b.jmc"), ("import", "x.jmc")],
           f"{P}/a.b.jmc": [D(1001), L(1002)], f"{P}/x.jmc.jmc": [D(1003)], f"{P}/x.jmc": [D(1004), ("import", "x.jmc.jmc")]},
@@ -376,6 +470,79 @@ def gen_adversarial(rng):
              cwd, target, tag="cycle-loads-only")
         proj({m: [("import", "a"), D(1000), L(1001)], f"{P}/a.jmc": [("import", "sub/../main.jmc"), D(1002)]},
              cwd, target, tag="cycle-def-after-import")
+    return out
+
+
+# ------------------------------------------------------------------ file-sensitive load statements (strengthening round 3)
+
+def gen_filesens(rng, tier):
+    """load statements before / between / after imports whose compilation depends on the file the load tokenizer stands on:
+    line number vs the length of the neighbouring files, folder of the file, file and line of a diagnostic"""
+    out = []
+    m = f"{P}/main.jmc"
+    L = lambda n, k="wvar": ("load", n, k)   # noqa
+    D = lambda n, k="func": ("def", n, k)    # noqa
+    W = ("load", 1999, "watch")
+    dirs = ["w/other", f"{P}/sub"]
+    spell = MAIN_SPELLINGS[:4] if tier == "quick" else MAIN_SPELLINGS
+
+    def proj(files, cwd, target, tag):
+        out.append(Project(files, list(dirs), cwd, target, tag))
+    for cwd, target in spell:
+        # (a) statements on late lines, 1-line neighbours; before / between / after imports, a repeated import, an imported file's own import
+        proj({m: [W, L(1000, "wvarp"), ("import", "a"), L(1001), ("import", "a"), L(1002, "wvarp"), ("import", "sub/c"), L(1003, "wvarp")],
+              f"{P}/a.jmc": [L(1004, "say")],
+              f"{P}/sub/c.jmc": [L(1005, "wvarp"), ("import", "deep/e"), L(1006, "wvarp"), D(1007, "wfunc"), L(1008)],
+              f"{P}/sub/deep/e.jmc": [L(1009)]}, cwd, target, "fs-late-line")
+        proj({m: [W, L(1000, "say"), L(1001, "wvarp"), ("wild", "lib/*"), L(1002, "wvarp"), ("import", "sub/a"), L(1003)],
+              f"{P}/lib/f.jmc": [L(1004)], f"{P}/lib/a.jmc": [L(1005, "wvarp"), ("import", "../a")],
+              f"{P}/a.jmc": [L(1006)], f"{P}/sub/a.jmc": [D(1007, "plain"), L(1008, "wvarp"), ("wild", "../lib/*"), L(1009, "wvarp")]},
+             cwd, target, "fs-late-line-wild")
+        # (b) the folder of the file: JMC.pythonFile("gen.py"), a gen.py in every folder
+        proj({m: [L(1000, "pyf"), ("import", "sub/c"), L(1001, "pyf"), ("wild", "lib/*"), L(1002, "pyf"), ("import", "sub/c"), L(1003, "pyf")],
+              f"{P}/sub/c.jmc": [L(1004, "pyf"), ("import", "deep/e"), L(1005, "pyf"), D(1006), L(1007, "pyf")],
+              f"{P}/sub/deep/e.jmc": [L(1008, "pyf"), D(1009, "plain")], f"{P}/lib/f.jmc": [L(1010, "pyf"), ("import", "../sub/c")]},
+             cwd, target, "fs-python-file")
+        proj({m: [L(1000, "pyf"), ("import", "../other/o"), L(1001, "pyf")], "w/other/o.jmc": [L(1002, "pyf"), ("import", "../proj/main"), L(1003, "pyf")]},
+             cwd, target, "fs-python-file-outside")
+    # (c) a failing load statement in every position x every kind of diagnostic
+    k = 0
+    for slot in range(8):
+        for bad in BAD_KINDS:
+            cwd, target = spell[k % len(spell)]
+            k += 1
+            s = [L(1000 + j, "say") if j != slot else L(1000 + j, bad) for j in range(8)]
+            proj({m: [s[0], ("import", "sub/c"), s[1], ("wild", "lib/*"), s[2]],
+                  f"{P}/sub/c.jmc": [s[3], ("import", "deep/e"), s[4], D(1010, "plain"), s[5]],
+                  f"{P}/sub/deep/e.jmc": [s[6]], f"{P}/lib/f.jmc": [L(1011, "say"), s[7]]}, cwd, target, "fs-diagnostic")
+    # random projects: half of the load statements file-sensitive, sometimes one failing statement
+    n_rand = 60 if tier == "quick" else 600
+    for ci, pr in enumerate(gen_random(rng, n_rand)):
+        ids = set()
+        for f, its in pr.files.items():
+            for j, it in enumerate(its):
+                if it[0] == "load" and rng.random() < .6:
+                    its[j] = ("load", it[1], rng.choice(FS_LOAD_KINDS))
+                elif it[0] == "def" and rng.random() < .15:
+                    its[j] = ("def", it[1], "wfunc")
+                ids.add(it[1] if it[0] in ("load", "def") else 0)
+        nxt = max(ids | {999}) + 1
+        # make sure a file-sensitive statement stands directly before and after an import of the main file and of one more file
+        holders = [f for f, its in pr.files.items() if any(i[0] in ("import", "wild") for i in its)]
+        for f in [m] + ([rng.choice(holders)] if holders else []):
+            its = pr.files[f]
+            pos = [j for j, i in enumerate(its) if i[0] in ("import", "wild")]
+            if pos:
+                j = rng.choice(pos)
+                its.insert(j + 1, ("load", nxt, rng.choice(FS_LOAD_KINDS)))
+                its.insert(j, ("load", nxt + 1, rng.choice(FS_LOAD_KINDS)))
+                nxt += 2
+        if rng.random() < .3:
+            f = rng.choice(sorted(pr.files))
+            pr.files[f].insert(rng.randint(0, len(pr.files[f])), ("load", nxt, rng.choice(BAD_KINDS)))
+        pr.files[m].insert(0, W)
+        pr.tag = f"fs-rnd{ci}"
+        out.append(pr)
     return out
 
 
@@ -603,8 +770,52 @@ def run_sequences(seqs, chunk=1):
 ID_RE = re.compile(r"(?<!\d)(1\d{3})(?!\d)")
 
 
-def observe(res: dict, alloc=None):
-    """-> ('ok', order, loads, opens) | ('dup', n) | ('notfound', tuple) | ('dirnotfound', tuple) | ('other', text)"""
+WATCH_RE = re.compile(r'\{"text":"([^"]*)","color":"yellow"\},\{"text":" \| ","color":"aqua","bold":true\},'
+                      r'\{"text":"([^"]*)","color":"yellow"\}\]')
+NAME_RE = re.compile(r"(.*?\.jmc)(?::(\d+))?(?::\d+)?")
+WATCH_FN_RE = re.compile(r"/__private__/__debug_watch__/(\d+)\.mcfunction$")
+
+
+def printed_file(name: str, cwd_t: tuple):
+    """a file name as jmc prints it (relative to the cwd with :line[:col], or absolute) -> (canonical file, line | None) | None"""
+    mm = NAME_RE.fullmatch(name)
+    if not mm:
+        return None
+    path = mm.group(1)
+    if path.startswith("{ROOT}/"):
+        t = canon((), ["", ROOTC] + path[len("{ROOT}/"):].split("/"))
+    elif path.startswith("/"):
+        return None
+    else:
+        t = canon(cwd_t, path.split("/"))
+    return t, (int(mm.group(2)) if mm.group(2) else None)
+
+
+def watch_functions(files: dict):
+    """[(k, path, id of the statement, printed name, printed source line)] of the Debug.watch wrappers, in order of their numbers"""
+    out = []
+    for k, v in files.items():
+        mm = WATCH_FN_RE.search(k)
+        if mm:
+            ids = ID_RE.findall(v.split("\n")[1] if v.count("\n") else v)
+            w = WATCH_RE.search(v)
+            out.append((int(mm.group(1)), k, int(ids[0]) if ids else -1, w.group(1) if w else None, w.group(2) if w else None))
+    return sorted(out)
+
+
+def diag_pos(res: dict, cwd_t: tuple):
+    """where a diagnostic says the error is: (canonical file | None, line | None)"""
+    msg = res.get("msg", "")
+    f = None
+    if msg.startswith("In "):
+        pf = printed_file(msg.split("\n")[0][3:].strip(), cwd_t)
+        f = pf[0] if pf else None
+    mm = re.search(r" at line (\d+) col \d+", msg)
+    return f, (int(mm.group(1)) if mm else None)
+
+
+def observe(res: dict, alloc=None, pr=None):
+    """-> ('ok', order, loads, opens, wids, wfiles) | ('dup', n) | ('notfound', tuple) | ('dirnotfound', tuple) | ('bad', n, file) | ('other', text)"""
     if res["ok"]:
         fs = res["files"]
         order = []
@@ -620,12 +831,30 @@ def observe(res: dict, alloc=None):
                 order.append(n)
         loads = []
         load = next((v for k, v in fs.items() if k.endswith("/function/__load__.mcfunction")), "")
+        wf = watch_functions(fs)
+        wcalls = {re.sub(r".*/function/", "", k)[:-len(".mcfunction")]: n for _, k, n, _, _ in wf}
         for line in load.split("\n"):
             ids = ID_RE.findall(line)
+            mm = re.fullmatch(r"function [^:\s]+:(\S+)", line)
+            if mm and mm.group(1) in wcalls:                     # a watched `$q += n;` is a call of its Debug.watch wrapper
+                ids = [str(wcalls[mm.group(1)])]
             if ids and (not loads or loads[-1] != int(ids[0])):
                 loads.append(int(ids[0]))
-        return ("ok", order, loads, [tup(o) for o in res["opens"]])
+        wids, wfiles = [], []
+        if pr is not None:
+            watched = set(pr.ids_of(WATCHED_KINDS))
+            for _, _, n, name, _ in wf:
+                if n in watched:
+                    pf = printed_file(name or "", tup(pr.cwd))
+                    wids.append(n)
+                    wfiles.append(pf[0] if pf else ("?",))
+        return ("ok", order, loads, [tup(o) for o in res["opens"]], wids, wfiles)
     msg = res.get("msg", "")
+    if pr is not None and res.get("jmc"):
+        bad = pr.ids_of(BAD_KINDS)
+        f, _line = diag_pos(res, tup(pr.cwd))
+        if len(bad) == 1 and f is not None:
+            return ("bad", bad[0], f)
     if res["exc"] == "JMCSyntaxException" and "Duplicate function declaration" in msg:
         ids = ID_RE.findall(msg.split("Duplicate function declaration", 1)[1])
         return ("dup", int(ids[0]) if ids else -1)
@@ -638,14 +867,34 @@ def observe(res: dict, alloc=None):
     return ("other", f"{res['exc']}: {msg[:300]}")
 
 
-def result_key(res: dict):
-    """What must coincide between the project and the flattened file."""
+def result_key(res: dict, layout: dict | None = None, cwd_t: tuple | None = None):
+    """What must coincide between the project and the flattened file.
+    layout (item id -> (file, line) on THIS side) given: comparison modulo the file mapping - a file name / line the output prints for
+    a statement (Debug.watch) and the position of a diagnostic are replaced by the statement they denote on this side."""
     if res["ok"]:
-        return ("ok", tuple(sorted(res["files"].items())))
+        files = res["files"]
+        if layout is not None:
+            files = dict(files)
+            for _, k, n, name, _src in watch_functions(files):
+                pf = printed_file(name or "", cwd_t)
+                own = layout.get(n)
+                if pf and own and pf[0] == own[0] and pf[1] in (None, own[1]):
+                    files[k] = files[k].replace('{"text":"' + name + '","color":"yellow"}', '{"text":"@own-file-and-line","color":"yellow"}')
+        return ("ok", tuple(sorted(files.items())))
     msg = res.get("msg", "")
     first = msg.split("\n")[1] if msg.startswith("In ") and "\n" in msg else msg.split("\n")[0]
     first = re.sub(r" at line \d+ col \d+", "", first)
-    return ("err", res["exc"], first[:200])
+    if layout is None:
+        return ("err", res["exc"], first[:200])
+    f, line = diag_pos(res, cwd_t)
+    where = None
+    if f is not None or line is not None:
+        at = [n for n, (ff, ll) in layout.items() if ff == f and ll == line]
+        where = at[0] if at else ("no statement of the program at", "/".join(f or ("?",)), line)
+        if at:                                            # the source line the diagnostic shows must be the statement's
+            shown = re.search(r"^%d *\|(.*)$" % line, msg, re.M)
+            where = (where, shown.group(1).strip() if shown else None)
+    return ("err", res["exc"], first[:200], where)
 
 
 # ------------------------------------------------------------------ Coq terms
@@ -669,7 +918,9 @@ def coq_item(it) -> str:
 def coq_robs(o) -> str:
     if o[0] == "ok":
         return (f"(ROk {coq_list(str(n) for n in o[1])} {coq_list(str(n) for n in o[2])} "
-                f"{coq_list(coq_path(p) for p in o[3])})")
+                f"{coq_list(coq_path(p) for p in o[3])} {coq_list(str(n) for n in o[4])} {coq_list(coq_path(p) for p in o[5])})")
+    if o[0] == "bad":
+        return f"(RBad {o[1]} {coq_path(o[2])})"
     if o[0] == "dup":
         return f"(RDup {o[1]})"
     if o[0] == "notfound":
@@ -689,7 +940,9 @@ def coq_case(pr: Project, listing: dict, obs, mode="Repaired") -> str:
     t = model_str(pr.target)
     alloc = sorted(alloc_ids(pr))
     return (f"mkCase {mode} {tree} {dirs} {coq_path(tup(pr.cwd))} {coq_bool(t.startswith('/'))} "
-            f"{coq_list(coq_str(c) for c in t.split('/'))} {coq_list(str(n) for n in alloc)} {coq_robs(obs)}")
+            f"{coq_list(coq_str(c) for c in t.split('/'))} {coq_list(str(n) for n in alloc)} "
+            f"{coq_list(str(n) for n in pr.ids_of(WATCHED_KINDS))} {coq_list(str(n) for n in pr.ids_of(BAD_KINDS))} "
+            f"{coq_list(str(n) for n in pr.ids_of(HIDDEN_KINDS))} {coq_robs(obs)}")
 
 
 # ------------------------------------------------------------------ running
@@ -722,7 +975,7 @@ def evaluate(projects: list[Project], reals: list[dict] | None = None):
             flat = spec_flatten(files, listing, pr.main_id())
             spec = ("ok", flat)
             flat_idx.append(i)
-            flat_jobs.append(flat_job(flat))
+            flat_jobs.append(flat_job(flat, pr.aux_files()))
         except SpecError as e:
             spec = (e.kind, e.path)
         rows.append(dict(project=pr, real=r, listing=listing, spec=spec, flat_real=None))
@@ -735,9 +988,11 @@ def property_failure(row) -> dict | None:
     """The property itself, on the real compiler."""
     r, spec, fr = row["real"], row["spec"], row["flat_real"]
     if spec[0] == "ok":
-        if result_key(r) != result_key(fr):
+        pr = row["project"]
+        if result_key(r, pr.layout(), tup(pr.cwd)) != result_key(fr, flat_layout(spec[1]), tup(P)):
             return dict(expected=summary(fr), actual=summary(r),
-                        what="the project does not compile to the output of the flattened single file")
+                        what="the project does not compile to the output of the flattened single file "
+                             "(modulo the file mapping: printed file names / lines and the position of a diagnostic denote the same statement)")
         opens = r.get("opens", [])
         if len(opens) != len(set(opens)):
             return dict(expected="every .jmc file read at most once", actual=opens, what="a file was parsed twice")
@@ -791,7 +1046,9 @@ def _norm_run_execute(res: dict):
 def known_class(row):
     """A failing project is a known finding only if it matches a rule of known_findings.json:
        match = {"requires_kind": <item kind that must occur in the project>,
-                "normalize": "run-execute"  (project and flattened outputs are equal once ` run execute ` is folded)}"""
+                "normalize": "run-execute"  (project and flattened outputs are equal once ` run execute ` is folded)
+                           | "deferred-diagnostic"  (both sides raise the same 'was never defined' diagnostic, raised when the pack is
+                                                     built; only the file / line / source line it cites differ)}"""
     pr = row["project"]
     kinds = {it[2] for its in pr.files.values() for it in its if it[0] in ("load", "def")}
     for f in known_for(PROP):
@@ -803,7 +1060,44 @@ def known_class(row):
             if a is None or a != b:
                 continue
             return f
+        if m.get("normalize") == "deferred-diagnostic":
+            r, fr = row["real"], row["flat_real"]
+            if not fr or r["ok"] or fr["ok"] or "was never defined" not in r.get("msg", "") or result_key(r) != result_key(fr):
+                continue
+            return f
     return None
+
+
+def fs_stats(rows) -> dict:
+    """strengthening round 3: what the file-sensitive statements really exercised"""
+    fs = [r for r in rows if r["project"].tag.startswith("fs-")]
+    pos = {"before-import": 0, "after-import": 0, "between-imports": 0}
+    late = 0
+    for r in fs:
+        pr = r["project"]
+        lens = {f: pr.file_text(its).count("\n") for f, its in pr.files.items()}
+        lay = pr.layout()
+        for f, its in pr.files.items():
+            for j, it in enumerate(its):
+                if it[0] == "load" and it[2] in WATCHED_KINDS | {"pyf"} | set(BAD_KINDS):
+                    nxt = j + 1 < len(its) and its[j + 1][0] in ("import", "wild")
+                    prv = j > 0 and its[j - 1][0] in ("import", "wild")
+                    pos["before-import"] += bool(nxt)
+                    pos["after-import"] += bool(prv)
+                    pos["between-imports"] += bool(nxt and prv)
+                    if nxt and its[j + 1][0] == "import":
+                        t = spec_target(tup(f), its[j + 1][1])
+                        tf = "/".join(t[1:])
+                        late += bool(tf in lens and lay[it[1]][1] > lens[tf])
+    return dict(projects=len(fs), by_tag={t: sum(1 for r in fs if re.sub(r"\d+$", "", r["project"].tag) == t)
+                                          for t in sorted({re.sub(r"\d+$", "", r["project"].tag) for r in fs})},
+                watched_statements_observed=sum(len(r["obs"][4]) for r in fs if r["obs"][0] == "ok"),
+                watched_files_distinct=len({(r["project"].tag, p) for r in fs if r["obs"][0] == "ok" for p in r["obs"][5]}),
+                python_file_statements=sum(len(r["project"].ids_of({"pyf"})) for r in fs),
+                diagnosed_failing_statement={k: sum(1 for r in fs if r["obs"][0] == "bad" and k in r["project"].kinds()) for k in BAD_KINDS},
+                diagnosed_in_imported_file=sum(1 for r in fs if r["obs"][0] == "bad" and r["obs"][2] != r["project"].main_id()),
+                statements_next_to_an_import=pos, statements_before_import_of_shorter_file_than_their_line=late,
+                outcomes={k: sum(1 for r in fs if r["obs"][0] == k) for k in sorted({r["obs"][0] for r in fs})})
 
 
 def main(tier: str) -> int:
@@ -815,12 +1109,16 @@ def main(tier: str) -> int:
         "is not modelled (hypothesis of C17_outputs_equal); it is exercised by the metamorphic comparison of real file maps only",
         "harness/c17.py spec_flatten: independent Python implementation of the specification, cross-checked against Coq `flatten`",
         "directory listing order of `import \"dir/*\"` is taken from the real file system (parameter `dirs` of the model)",
+        "file-sensitive load statements (round 3): the model says which file's tokenizer parses a batch (EvBatch tok l, C17_load_batch_file); what a "
+        "tokenizer's file is used for (diagnostics, Debug.watch source line, JMC.pythonFile folder) is not modelled - observed on the real output: printed "
+        "file names are mapped back to files by harness/c17.py printed_file, item lines by Project.layout",
         "the model is a function of the source tree alone (no state between compiles): that the CODE keeps nothing between compiles of an edited "
         "folder is checked by the edit sequences (c17_run.py sync_tree edits one folder in place, every state compiled in one process)",
     ]
     ck.proof(extra_targets=["Run/C17.vo"])
     rng = ck.rng
-    projects = gen_adversarial(rng) + gen_exhaustive(rng, tier) + gen_random(rng, 150 if tier == "quick" else 1500)
+    projects = (gen_adversarial(rng) + gen_exhaustive(rng, tier) + gen_random(rng, 150 if tier == "quick" else 1500)
+                + gen_filesens(rng, tier))
     rows = evaluate(projects)
 
     # ---- 0. edit sequences (strengthening round 2): every state of a project folder compiled in turn in ONE process; each state is a row
@@ -854,7 +1152,7 @@ def main(tier: str) -> int:
                 hist = [steps[j]]
                 break
         ck.violation(dict(kind=kind, edit=tag, history=[h.to_json() for h in hist], project=steps[st].to_json(),
-                          flattened=[item_text(i[2], i[1]) for i in row["spec"][1]] if row["spec"][0] == "ok" else row["spec"],
+                          flattened=flat_texts(row["spec"][1]) if row["spec"][0] == "ok" else row["spec"],
                           failure=failure, fresh_process=summary(alone["real"]),
                           what="compiled after the earlier states of the same folder in ONE process, the project no longer compiles to the "
                                "flattened single file of the project as it is now (a fresh process does)"))
@@ -903,14 +1201,14 @@ def main(tier: str) -> int:
         srow = evaluate([small])[0]
         sf = property_failure(srow) or f
         ck.violation(dict(kind="import-split-changes-output", project=small.to_json(),
-                          flattened=[item_text(i[2], i[1]) for i in srow["spec"][1]] if srow["spec"][0] == "ok" else srow["spec"],
+                          flattened=flat_texts(srow["spec"][1]) if srow["spec"][0] == "ok" else srow["spec"],
                           failure=sf, n_failing_projects=sum(1 for r in rows if r.get("fail") or property_failure(r))))
 
     # ---- 2. correspondence model <-> code, and Coq flatten <-> harness flatten
     terms, specs = [], []
     for row in rows:
         pr = row["project"]
-        obs = observe(row["real"], alloc_ids(pr))
+        obs = observe(row["real"], alloc_ids(pr), pr)
         row["obs"] = obs
         terms.append(coq_case(pr, row["listing"], obs, os.environ.get("C17_MODEL_MODE", "Repaired")))
         sp = row["spec"]
@@ -958,6 +1256,7 @@ def main(tier: str) -> int:
         disagreements_checked=len(bad) + len(bad2), property_failures=n_fail,
         outcome_histogram=kinds, shape_histogram=shape, projects_with_import_of_main=cyc,
         main_spellings=[f"cwd={c} target={t}" for c, t in MAIN_SPELLINGS],
+        file_sensitive=fs_stats(rows),
         edit_sequences=dict(sequences=len(seqs), states=len(seq_rows), by_edit={t: sum(1 for tt, _ in seqs if tt == t) for t in sorted({tt for tt, _ in seqs})},
                             states_after_an_edit=len(ctl_idx), fresh_process_controls=n_ctl, controls_with_other_directory_order=n_ctl_listing_differs,
                             states_with_wildcard=sum(1 for r in seq_rows if wild_dirs_of(r["project"])),
@@ -983,7 +1282,7 @@ def replay(path: str) -> int:
         row = evaluate([pr])[0]
     f = property_failure(row)
     print("project:", json.dumps(pr.to_json(), indent=1))
-    print("flattened:", row["spec"][0], [item_text(i[2], i[1]) for i in row["spec"][1]] if row["spec"][0] == "ok" else row["spec"][1])
+    print("flattened:", row["spec"][0], flat_texts(row["spec"][1]) if row["spec"][0] == "ok" else row["spec"][1])
     print("expected (flattened file):", json.dumps(summary(row["flat_real"]), indent=1))
     print("actual (project):", json.dumps(summary(row["real"]), indent=1))
     print("FAILS" if f else "holds", f["what"] if f else "")
